@@ -254,6 +254,11 @@ def scenarios(chk):
     if thorough:
         out += [scn('reset', rng.choice([1, 2, 3]), rng.choice([300, 500]), loop=rng.randint(0, 1), stagger=1, late=rng.choice([50, 100, 150]), after=1) for _ in range(4)]
         out.append(scn('cycles', 2, 300, cycles=2, loop=0, stagger=1, late=100))
+    # messages logged through the Qt macros AFTER the application object has been destroyed, on paths where the stop
+    # has completed (the logger is synchronous again): "messages logged after the stop are delivered synchronously
+    # instead of being dropped" also holds then
+    for p, kw in (('quit', {}), ('reset', {'loop': 1}), ('reset', {'loop': 0}), ('quit', {'async': 0})):
+        out.append(scn(p, rng.choice([0, 2, 5]), rng.choice([0, 1]), gone=2, **kw))
     out += rejecting_scenarios(rng, 12 if thorough else 4)
     if thorough:
         out += widened_scenarios(rng)
@@ -419,6 +424,12 @@ def analyze(s, r):
         lost = [m for m in posted if m not in del_at]
         if lost:
             problems.append(('lost', '%d accepted message(s) never delivered although the process exited, e.g. %s' % (len(lost), lost[:5])))
+        elif s.get('gone'):
+            # the calls made after the application object was destroyed returned (ACCEPTED) - each must have reached the sinks
+            never = sorted(m for m in acc_at if m not in del_at and m not in posted)
+            if never:
+                problems.append(('lost', '%d message(s) logged through the Qt macros after the stop (application object already destroyed) '
+                                 'never reached the logger, e.g. %s' % (len(never), never[:5])))
     facts.update({'posted': len(posted), 'delivered': len(delivered), 'exited': exited, 'oracle_points': oracle_points})
     return problems, toks, facts
 
